@@ -8,15 +8,15 @@ CHECKS = {
  # id: (engine, category, technique, level text, level note, design ref)
  "C04": ("codec+e2e", "exploration",
          "strict independent wire parser as oracle on every emitted request (differential monitoring)",
-         "Every request encoder is called with generated boundary-heavy arguments and every frame the simulated brokers receive in end-to-end runs is parsed by an independent strict implementation of the protocol grammar and compared field by field with what the caller supplied; version selection is observed in end-to-end producer+consumer runs against generated ApiVersions tables (dense, full, unordered, sparse) and brokers that close, ignore or reject version discovery: ApiVersions precedes the first Produce/Fetch, the version sent is advertised for that API and implemented, v0 after failed discovery, and the replies are decoded correctly (offsets, keys, delivered stream). Two defects found there were fixed in /repo. Held = on the executions produced; sampling, not proof.",
+         "Every request encoder is called with generated boundary-heavy arguments and every frame the simulated brokers receive in end-to-end runs is parsed by an independent strict implementation of the protocol grammar and compared field by field with what the caller supplied; version selection is observed in end-to-end producer+consumer runs against generated ApiVersions tables (dense, full, unordered, sparse) and brokers that close, ignore or reject version discovery: ApiVersions precedes the first Produce/Fetch, the version sent is advertised for that API and implemented, v0 after failed discovery, and the replies are decoded correctly (offsets, keys, delivered stream); also discovery that is lost after it had succeeded (the retry of an unanswered produce request keeps its version) and clients whose correlation ids cross the int32 limit. Two defects found there were fixed in /repo. Held = on the executions produced; sampling, not proof.",
          "trusts afkverif/refproto.py (written from the protocol guide, self-tested, shares no code with afkak); snappy not installed", "3/C04"),
  "C05": ("codec", "exploration",
          "differential monitoring: independent reference encoder -> afkak decoders; round-trip law",
-         "Generated well-formed responses of every supported API/version and message sets (both magics, gzip incl. multi-member streams, nesting, empty wrappers, wrappers stamped LogAppendTime, the same format-1 wrapper appended twice at different offsets) are produced by the independent encoder and decoded by afkak; equality of every field, plus encode/decode identity and afkak-encode -> reference-decode agreement.",
+         "Generated well-formed responses of every supported API/version and message sets (both magics, gzip incl. multi-member streams, nesting, empty wrappers, wrappers stamped LogAppendTime, the same format-1 wrapper appended twice at different offsets; partial trailing messages inside fetch responses) are produced by the independent encoder and decoded by afkak; equality of every field, plus encode/decode identity and afkak-encode -> reference-decode agreement.",
          "trusts refproto encoders; nested wrappers only in magic 0; snappy not installed", "3/C05"),
  "C12": ("codec", "fault_enumeration",
          "fault injection on encoded data (all bit flips, bursts, truncations) with exception/step/allocation monitors",
-         "Per generated message set every single-bit flip of every top-level message and every truncation point is enumerated, bursts <= 32 bits are sampled, and arbitrary/mutated/hostile byte strings are fed to every decoder under a sys.monitoring line counter and tracemalloc; exhaustive per set, sets sampled. Also alterations of a message inside a compressed wrapper whose own CRC is valid (re-compressed, re-wrapped), and fetch-size growth cases at the consumer; hostile values in two count/length fields at once (every field pair of tiny valid responses, random position pairs).",
+         "Per generated message set every single-bit flip of every top-level message and every truncation point is enumerated, bursts <= 32 bits are sampled, and arbitrary/mutated/hostile byte strings are fed to every decoder under a sys.monitoring line counter and tracemalloc; exhaustive per set, sets sampled. Also alterations of a message inside a compressed wrapper whose own CRC is valid (re-compressed, re-wrapped), and fetch-size growth cases at the consumer; hostile values in two count/length fields at once (every field pair of tiny valid responses, random position pairs); every cut point of a set also as the record data of a partition that other partitions follow in a fetch response.",
          "CRC-32 burst-detection theory for the oracle; linear resource bound constants 60 lines/byte and 64 B/byte (+fixed) calibrated at >20x the valid-input maximum", "3/C12"),
  "C15": ("pure", "exploration",
          "runtime oracle over real assignor + independent decoder; small configuration space enumerated",
@@ -31,11 +31,11 @@ CHECKS = {
 CHECKS.update({
  "C06": ("brokerclient", "exploration",
          "history monitor at the client boundary (one recorder per request Deferred + AlreadyCalledError trap) against the server's frame log; differential re-run for non-interference",
-         "The real _KafkaBrokerClient/KafkaProtocol and KafkaBootstrapProtocol run over an in-memory network against a scripted raw server (late, duplicate, swapped, unsolicited and oversize frames; arbitrary chunking; cuts; cancels, disconnect, close, also from inside completion callbacks). Each request must fire exactly once with the first delivered frame bearing its id, or with CancelledError/ClientError for the right reason; removing unsolicited frames from the plan must not change any outcome; a request pending although the server answered everything and accepted every connection for 60 s is a violation. Also requests the transport cannot write (must fail once, siblings untouched) and request-table situations generated on purpose: a connection lost while cancelled entries sit among live ones, close() failing unsent requests whose callbacks cancel siblings or close again, a request / cancel / close() in the reactor turn right behind disconnect(), a queue flushed on connect whose no-reply requests cancel or disconnect from their callbacks, correlation ids at the edges of int32 and frames too short to carry one.",
+         "The real _KafkaBrokerClient/KafkaProtocol and KafkaBootstrapProtocol run over an in-memory network against a scripted raw server (late, duplicate, swapped, unsolicited and oversize frames; arbitrary chunking; cuts; cancels, disconnect, close, also from inside completion callbacks). Each request must fire exactly once with the first delivered frame bearing its id, or with CancelledError/ClientError for the right reason; removing unsolicited frames from the plan must not change any outcome; a request pending although the server answered everything and accepted every connection for 60 s is a violation. Also requests the transport cannot write (must fail once, siblings untouched) and request-table situations generated on purpose: a connection lost while cancelled entries sit among live ones, close() failing unsent requests whose callbacks cancel siblings or close again, a request / cancel / close() in the reactor turn right behind disconnect(), a queue flushed on connect whose no-reply requests cancel or disconnect from their callbacks, correlation ids at the edges of int32 and frames too short to carry one; on a TLS-like transport (deliveries continue after loseConnection) a reply right behind disconnect() and frame-shaped bytes behind an impossible length prefix.",
          "simnet models Twisted TCP transport semantics (no dataReceived after loseConnection, writes in the same turn still flushed); bootstrap protocol exempt from non-interference by design", "3/C06"),
  "C10": ("brokerclient", "fault_enumeration",
          "online trace checker replayed over the unified event log (issues, cancels, fires, attempts, per-connection writes, losses, quiescent points); cut points enumerated",
-         "Same engine as C06. A model of 'live' requests is updated event by event: every write must be a live request, once per connection, re-sent ones in issue order; at every quiescent point a live request implies a connection carrying it, an attempt, or a back-off whose length equals the injected policy f(n); nothing is dialled when idle or after close; close's Deferred fires once after the connection is gone. Every byte offset of the first connection in both directions, cuts while connecting and during back-off 1..3 are enumerated on small scripts, also under configured back-offs of 16..62 s; the hand-shaped request-table situations of C06 run under this monitor too.",
+         "Same engine as C06. A model of 'live' requests is updated event by event: every write must be a live request, once per connection, re-sent ones in issue order; at every quiescent point a live request implies a connection carrying it, an attempt, or a back-off whose length equals the injected policy f(n); nothing is dialled when idle or after close; close's Deferred fires once after the connection is gone. Every byte offset of the first connection in both directions, cuts while connecting and during back-off 1..3 are enumerated on small scripts, also under configured back-offs of 16..62 s; the hand-shaped request-table situations of C06 run under this monitor too; a request whose complete reply was delivered is never written again.",
          "order is required among re-sent requests only (what the statement says); a running back-off loop is allowed to continue after its last request is cancelled", "3/C10"),
 })
 
@@ -49,7 +49,7 @@ CHECKS.update({
 CHECKS.update({
  "C11": ("client-e2e", "exploration",
          "timing monitor at the wrapped _make_request_to_broker boundary on a virtual clock + timer-count invariant at every quiescent point + differential re-run without late replies",
-         "Requests of mixed kinds (incl. JoinGroup with its 35 s minimum) are answered promptly, late by drawn factors of the timeout (0.5 .. 3), or never, with brokers whose connections never establish and with disconnect-on-timeout on/off. Every per-broker request must resolve by issued+T, exactly at issued+T with RequestTimedOutError when no reply was delivered in time, at delivery time otherwise; armed timeout timers must equal outstanding requests after every event; removing late replies must change nothing; the silent connection is dropped at the timeout and its other requests reach the broker again. Also: every request that reaches a broker client (brokerclient.makeRequest watched) either has a timed record or resolves within the timeout; version discovery retrying under one correlation id with late replies. The timeout in force is derived from the request kind (JoinGroup: max(client timeout, 35 s)); the join is sent by a real Coordinator whose session timeout is drawn.",
+         "Requests of mixed kinds (incl. JoinGroup with its 35 s minimum) are answered promptly, late by drawn factors of the timeout (0.5 .. 3), or never, with brokers whose connections never establish and with disconnect-on-timeout on/off. Every per-broker request must resolve by issued+T, exactly at issued+T with RequestTimedOutError when no reply was delivered in time, at delivery time otherwise; armed timeout timers must equal outstanding requests after every event; removing late replies must change nothing; the silent connection is dropped at the timeout and its other requests reach the broker again. Also: every request that reaches a broker client (brokerclient.makeRequest watched) either has a timed record or resolves within the timeout; version discovery retrying under one correlation id with late replies. The timeout in force is derived from the request kind (JoinGroup: max(client timeout, 35 s)); the join is sent by a real Coordinator whose session timeout is drawn; client timeouts above that minimum are included.",
          "virtual time: verdicts never depend on wall clock; exact ties between reply and timer accept either outcome", "3/C11"),
 })
 
@@ -67,7 +67,7 @@ CHECKS.update({
          "leader truth is the cluster model's; sends still queued below thresholds with no time limit are C19's subject", "3/C01"),
  "C09": ("producer-e2e", "exploration",
          "trace checker over the produce requests in the order the client wrote them (parsed by the independent codec), the responses delivered, producer batch hand-overs, client-call counts and retry timers",
-         "Same engine plus a zero-latency timing workload and a mixed-outcome workload (one batch over several leaders, first attempt partially failing, leader going away before the retry, client closed mid-retry). Checked: order and contiguity inside payloads and in the final logs, one payload per attempt, no batch handed to the client while an earlier one is unresolved, a payload whose error-free acknowledgement was received is never written again and is reported before the batch's next attempt, attempts (on the wire and at the producer->client boundary) never exceed the maximum, retry delays geometric from the configured interval and reset when the batch resolves. Also acks=0 batches meeting an unreachable cached leader: a written payload is neither re-sent nor held back until the sibling's retry.",
+         "Same engine plus a zero-latency timing workload and a mixed-outcome workload (one batch over several leaders, first attempt partially failing, leader going away before the retry, client closed mid-retry). Checked: order and contiguity inside payloads and in the final logs, one payload per attempt, no batch handed to the client while an earlier one is unresolved, a payload whose error-free acknowledgement was received is never written again and is reported before the batch's next attempt, attempts (on the wire and at the producer->client boundary) never exceed the maximum, retry delays geometric from the configured interval (zero included) and reset when the batch resolves. Also acks=0 batches meeting an unreachable cached leader: a written payload is neither re-sent nor held back until the sibling's retry.",
          "observes Producer._send_requests / _complete_batch_send / client.send_produce_request and the reactor's callLater through harness wrappers; traffic after stop() is left to C19", "3/C09"),
 })
 
@@ -89,7 +89,7 @@ CHECKS.update({
          "situations classified from Consumer attributes (stratification only); the C02 stream oracle stays on", "3/C13"),
  "C08": ("client-e2e", "exploration",
          "online monitor wrapped around the real client's metadata merge (harness-side): every metadata response, as recorded by the simulated cluster and paired by correlation id, is compared with the client's view right after it was merged, across generated histories of cluster mutations, refreshes and requests; connect hook on the simulated network for dialled addresses; wire inspection after not-leader / unknown-partition answers and failed sends; producer + consumers under finite fault sequences with bounded-recovery oracle",
-         "After each metadata response: partitions, leader (node, host, port) per partition, topic error and broker addresses of every covered topic equal the response, no stale partition entry survives, topics not in the response are unchanged, and after a full refresh that lists brokers every broker client for a missing node is gone from client.clients, its connection was asked to close (or its pending connect cancelled) within that reactor event and it never dials again; every later dial of a broker client goes to the address last advertised for its node. After a not-leader/unknown-partition answer (also behind another error in the same response list) or a failed send (also acks=0) a metadata request covering the topic is on the wire before the next request for it, which then goes where that answer says. After any generated finite sequence of leader moves, broker restarts and address changes: sends issued later succeed within max_req_attempts produce attempts, every acknowledged send is in the log, and each consumer's deliveries equal its partition log within 40 virtual seconds. Also the group's coordinator as cached routing: after a failed send to it the next group request is preceded by a lookup and follows it. One defect found here was fixed in /repo.",
+         "After each metadata response: partitions, leader (node, host, port) per partition, topic error and broker addresses of every covered topic equal the response, no stale partition entry survives, topics not in the response are unchanged, and after a full refresh that lists brokers every broker client for a missing node is gone from client.clients, its connection was asked to close (or its pending connect cancelled) within that reactor event and it never dials again; every later dial of a broker client goes to the address last advertised for its node. After a not-leader/unknown-partition answer (also behind another error in the same response list) or a failed send (also acks=0) a metadata request covering the topic is on the wire before the next request for it, which then goes where that answer says. After any generated finite sequence of leader moves, broker restarts and address changes: sends issued later succeed within max_req_attempts produce attempts, every acknowledged send is in the log, and each consumer's deliveries equal its partition log within 40 virtual seconds. Also the group's coordinator as cached routing: after a failed send to it the next group request is preceded by a lookup and follows it; a coordinator left out of a full refresh is still reached; a coordinator readdressed and announced by a lookup is dialled at the new address. One defect found here was fixed in /repo.",
          "a response never names a leader missing from its own broker list; topics absent from a full refresh are not judged; one bootstrap address stays reachable", "3/C08"),
  "C16": ("group-e2e", "exploration",
          "online trace monitor over 1-4 real ConsumerGroup members (own clients) against the simulated group coordinator: every request stamped where the member's client issues it, every reply where it reaches the client, every partition consumer where afkak._group constructs it (recording subclass installed from the harness), every processor call; membership histories with joins, stops, silent kills, evictions, coordinator moves, partition growth, rejected commits and slow processors",
